@@ -71,7 +71,12 @@ class Unit:
         return NotImplemented
 
     def __rmul__(self, o):
-        return NotImplemented
+        # number * Unit -> scalar Variable (scipp semantics)
+        from .variable import Variable
+        if isinstance(o, Variable):
+            return NotImplemented
+        dt = 'int64' if isinstance(o, int) and not isinstance(o, bool) else 'float64'
+        return Variable(dims=(), values=o, unit=self, dtype=dt)
 
     def __pow__(self, n):
         n = Fraction(n)
